@@ -1,4 +1,5 @@
 """C03 - run() returns the numerical solution of the compiled system."""
+import math
 import random
 
 import numpy as np
@@ -18,7 +19,8 @@ RULE = ("seeded small smooth models (1-3 nodes, one node per type so that initia
         "reference solution for adaptive solvers; non-trivial = at least 2 state variables or an input; distinct = distinct "
         "(spec hash, run settings)")
 DECIDING = ['trace_calls_checked', 'rows_compared', 'index_checks', 'cutoff_checks', 'adaptive_points_compared',
-            'heun_runs', 'euler_runs', 'scipy_runs', 'order_checks', 'durations_with_quotient_just_below_integer', 'oscillator_runs']
+            'heun_runs', 'euler_runs', 'scipy_runs', 'order_checks', 'durations_with_quotient_just_below_integer', 'oscillator_runs',
+            'explicit_time_rows']
 ASSUMPTIONS = ['sampling step is an integer multiple of the step, T an integer multiple of the sampling step',
                'cutoff is either 0, a half-way point between samples or exactly representable',
                'Heun on a time-dependent RHS: either stage-time convention accepted']
@@ -37,6 +39,10 @@ def plan(tier, seed):
     cases += [{'family': 'main', 'cseed': rnd.randrange(1 << 30), 'solver': 'order'} for _ in range(k)]
     # relaxation oscillators over several time units with adaptive solvers at moderate tolerance (steps get rejected)
     cases += [{'family': 'oscillator', 'cseed': rnd.randrange(1 << 30), 'solver': 'oscillator'} for _ in range(10 if tier == 'quick' else 200)]
+    # equations that refer to the time t explicitly: adaptive solvers (main sweep) and fixed-step solvers (recorded finding)
+    cases += [{'family': 'explicit_time', 'cseed': rnd.randrange(1 << 30), 'solver': 'scipy'} for _ in range(6 if tier == 'quick' else 80)]
+    fam = 'probe:explicit_time_fixed_step' if 'explicit_time_fixed_step' in open_risks(PID) else 'explicit_time'
+    cases += [{'family': fam, 'cseed': rnd.randrange(1 << 30), 'solver': sv} for sv in ('euler', 'heun') for _ in range(4 if tier == 'quick' else 40)]
     return cases
 
 
@@ -78,7 +84,68 @@ def pick_settings(rnd, exact):
     return dt, m, nrows, dts, T, cutoff, j
 
 
+def run_explicit_time_case(case, ctx):
+    """A model whose equations refer to the time t explicitly (x' = -a*x + b*sin(w*t), documented in math_syntax): the fixed-step
+    result must be the Euler / Heun iterates with t_k = k*dt, the adaptive result the solution of the ODE."""
+    from pyrates import OperatorTemplate, NodeTemplate, CircuitTemplate
+    from scipy.integrate import solve_ivp
+    rnd = random.Random(case['cseed'])
+    solver = case['solver']
+    a, b, w = round(rnd.uniform(0.5, 3.0), 3), round(rnd.uniform(0.5, 2.0), 3), round(rnd.uniform(5.0, 40.0), 2)
+    x0 = round(rnd.uniform(-1, 1), 3)
+    dt = rnd.choice([1e-3, 5e-4, 2e-3])
+    steps = rnd.randint(150, 400)
+    T = steps * dt
+    fixed = solver in ('euler', 'heun')
+    mech = {}
+    res = {'features': ['explicit_time', solver], 'risk': ['explicit_time_fixed_step'] if fixed else [],
+           'sig': stable_hash([a, b, w, x0, dt, steps, solver]), 'nontrivial': True}
+    try:
+        op = OperatorTemplate(name='t_op', equations=[f"x' = -a*x + b*sin({w}*t)"], variables={'x': f'output({x0})', 'a': a, 'b': b, 't': 'variable(0.0)'})
+        c = CircuitTemplate(name='tc', nodes={'n': NodeTemplate(name='t_node', operators=[op])})
+        kw = {} if fixed else {'method': 'RK45', 'rtol': 1e-9, 'atol': 1e-11}
+        try:
+            df = c.run(simulation_time=T, step_size=dt, outputs={'x': 'n/t_op/x'}, solver=solver, verbose=False, clear=True, in_place=False,
+                       float_precision='float64', vectorize=False, **kw)
+        except Exception as e:
+            raise observe.Mismatch(f"loud: run(solver={solver}) of a model with an explicit t raised {type(e).__name__}: {e}")
+        got = np.asarray(df.values, dtype=float).ravel()
+        f = lambda t, x: -a * x + b * math.sin(w * t)
+        if fixed:
+            exp = [x0]
+            for k in range(steps - 1):
+                t_k, x = k * dt, exp[-1]
+                if solver == 'euler':
+                    exp.append(x + dt * f(t_k, x))
+                else:
+                    xp = x + dt * f(t_k, x)
+                    exp.append(x + 0.5 * dt * (f(t_k, x) + f(t_k, xp)))       # (stage time: see C08 - both stages belong to step k)
+            exp = np.array(exp)
+            tol = 1e-9
+        else:
+            times = np.asarray(df.index, dtype=float)
+            sol = solve_ivp(lambda t, y: [f(t, y[0])], (0.0, float(times[-1]) + 1e-12), [x0], t_eval=times, rtol=1e-12, atol=1e-14, method='DOP853')
+            exp = sol.y[0]
+            tol = 1e-6
+        if got.shape != exp.shape:
+            raise observe.Mismatch(f"run(solver={solver}) returned {got.shape[0]} rows, expected {exp.shape[0]}")
+        err = float(np.max(np.abs(got - exp)))
+        if not err <= tol * max(1.0, float(np.max(np.abs(exp)))):
+            i = int(np.argmax(np.abs(got - exp)))
+            raise observe.Mismatch(f"explicit time: x' = -{a}*x + {b}*sin({w}*t), solver={solver}, dt={dt}: row {i} is {got[i]!r}, "
+                                   f"{'iterates with t_k = k*dt give' if fixed else 'ODE solution is'} {exp[i]!r} (max abs err {err:.3e})")
+        mech['explicit_time_rows'] = int(got.shape[0])
+        mech['rows_compared'] = int(got.shape[0])
+        res.update(status='ok', symptom='', mech=mech, sample={'equation': f"x' = -a*x + b*sin({w}*t)", 'solver': solver})
+    except observe.Mismatch as e:
+        s2 = str(e)
+        res.update(status='violation', symptom=('silent: ' if 'loud' not in s2 else '') + s2, mech=mech, spec={'a': a, 'b': b, 'w': w})
+    return res
+
+
 def run_case(case, ctx):
+    if case.get('family') in ('explicit_time', 'probe:explicit_time_fixed_step'):
+        return run_explicit_time_case(case, ctx)
     rnd = random.Random(case['cseed'])
     mech = {}
     monitors.reset()
